@@ -253,7 +253,7 @@ class SchedRun:
         for ch in w.channels:
             so = w.fds.get(ch.sock_fd)
             chans.append({"sock_writable": bool(so is not None and so.w_ready()), "sock_closed": bool(so is None or so.closed),
-                          "max_write": getattr(ch, "max_write", 0),
+                          "max_write": getattr(ch, "max_write", 0), "producer_waits": getattr(ch.outbuf_lock, "nwaits", 0),
                           "fd": ch.sock_fd, "tol": ch.total_outbufs_len, "max_tol": ch.max_tol, "requests": len(ch.requests),
                           "request_partial": ch.request is not None, "will_close": ch.will_close, "cwf": ch.close_when_flushed,
                           "connected": ch.connected, "in_map": ch.sock_fd in w.map, "sent_continue": ch.sent_continue})
